@@ -26,6 +26,11 @@ type vpEmp struct {
 	Buddy *vpEmp
 }
 
+type vpEsc struct {
+	V    int    `json:"v<"`
+	Next *vpEsc `json:"n&"`
+}
+
 func refDept(b []byte, d *vpDept) []byte {
 	if d == nil {
 		return append(b, "null"...)
@@ -80,7 +85,27 @@ func vpLocalB(n int64) (interface{}, []byte) {
 // graph of mutually recursive types and for distinct types with equal names.
 func H_C14_programs(t *verifrt.T) {
 	n := smallInt(t, "n")
-	switch t.Choice("family", 2) {
+	switch t.Choice("family", 3) {
+	case 2:
+		// a recursive type whose keys need HTML escaping: every level is encoded by the code set
+		// of the requested escaping mode (the recursion links exist once per mode)
+		v := &vpEsc{V: int(n), Next: &vpEsc{V: 2, Next: &vpEsc{V: 3}}}
+		num := verifref.Itoa(n)
+		rawWant := append(append([]byte(`{"v<":`), num...), `,"n&":{"v<":2,"n&":{"v<":3,"n&":null}}}`...)
+		escWant := append(append([]byte(`{"v\u003c":`), num...), `,"n\u0026":{"v\u003c":2,"n\u0026":{"v\u003c":3,"n\u0026":null}}}`...)
+		first := t.Choice("first-mode", 2)
+		for i := 0; i < 2; i++ {
+			if (i == 0) == (first == 0) {
+				out, err := MarshalWithOption(v, DisableHTMLEscape())
+				t.Assert("marshal-ok", err == nil)
+				t.Assert("no-escape-mode-at-every-level", verifref.BytesEq(out, rawWant))
+			} else {
+				out, err := Marshal(v)
+				t.Assert("marshal-ok", err == nil)
+				t.ObserveBytes("out", out)
+				t.Assert("escape-mode-at-every-level", verifref.BytesEq(out, escWant))
+			}
+		}
 	case 0:
 		// shape of the mutually recursive value: each optional link present or nil
 		mk := func(name string, depth int) *vpDept { return &vpDept{Name: name, Budget: int(n) + depth} }
